@@ -10,7 +10,7 @@ for l in open('/verif/properties.jsonl'):
     d=json.loads(l); pid=d['id']; sid='N'+pid[1:]+L
     body=f"""You are helping evaluate a verification framework for the Go project IrineSistiana/mosproxy (a DNS forwarder/proxy: UDP/TCP/DoT/DoH/DoQ servers and upstreams, its own DNS wire codec, pipelined upstream transports, TTL cache, domain-rule routing).
 
-Your scratch git worktree of the repository is at /tmp/mut/{sid} (already created). Work ONLY inside it; never read or touch /repo or /verif or other directories under /tmp/mut. The sandbox has no network. Before any go command run:
+Your scratch git worktree of the repository is at /tmp/mut/{sid} (already created). Work ONLY inside it (cd into it before every git or go command; your shell may start elsewhere); never read or touch /repo or /verif or other directories under /tmp/mut; never use `git stash` or `git reset` (to return to the clean tree: `git checkout -- .` inside your worktree). The sandbox has no network. Before any go command run:
   export GOFLAGS=-mod=mod GOPROXY=off GOSUMDB=off GOTOOLCHAIN=local GOWORK=off
 
 PROPERTY {pid} (it holds for the unmodified code): {d['title']}
